@@ -183,6 +183,7 @@ type c18Op struct {
 	Raw  ev.B   `json:"raw,omitempty"`  // payload bytes for variant "random"
 	Adv  int    `json:"adv,omitempty"`  // before the call: 1 next block; 2 jump 70000 blocks; 3/4/5 jump to one block before / exactly / one block after the height at which the running epoch is due
 	Dcoy int    `json:"dcoy,omitempty"` // decoy operator variant
+	Pyr  int    `json:"pyr,omitempty"`  // Payer field of the transaction: 0 empty, 1 the address whose witness the call requires, 2 the address named in the parameter (the payer never signs by that alone)
 }
 
 type c18Case struct {
@@ -227,6 +228,7 @@ func genC18Op(t *rapid.T) c18Op {
 	).Draw(t, "s")
 	op.Via = rapid.SampledFrom([]int{0, 0, 0, 1, 2}).Draw(t, "via")
 	op.Dcoy = rapid.IntRange(0, 5).Draw(t, "dcoy")
+	op.Pyr = rapid.SampledFrom([]int{0, 0, 0, 1, 1, 2}).Draw(t, "pyr")
 	op.Adv = rapid.SampledFrom([]int{0, 0, 0, 0, 1, 1, 2}).Draw(t, "adv")
 	if op.M == "commitDpos" {
 		op.Adv = rapid.SampledFrom([]int{0, 1, 1, 2, 3, 4, 5}).Draw(t, "adv")
@@ -596,6 +598,12 @@ var c18Protected = [][]byte{
 func (r *c18Run) send(op c18Op, c c18Call, signers []common.Address) world.Result {
 	contract, method, args := viaPlan(op.Via, c.contract, c.method, c.args)
 	probeReset(nil)
+	switch op.Pyr {
+	case 1:
+		r.f.payer = c.required
+	case 2:
+		r.f.payer = c.named
+	}
 	return r.f.invoke(contract, method, args, signers)
 }
 
